@@ -308,8 +308,13 @@ CheckSame09(e, l, scn) ==
 (* explain is on, so explain changes the reported scores.                   *)
 CheckSame20(e, l, scn) ==
   LET first == e.variants[1].obs                       \* explain = false, profile = false
-      P(o) == [f \in {"ok", "ids", "cursor", "aggs"} |-> o[f]]
-      otherBad == {i \in DOMAIN e.variants : P(e.variants[i].obs) # P(first)}
+      P(o) == [f \in {"ok", "aggs"} |-> o[f]]
+      Q(o) == [f \in {"ids", "cursor"} |-> o[f]]
+      (* S20d (see below) also lets near-tied hits change places, and with them the cursor *)
+      idsBad == {i \in DOMAIN e.variants : Q(e.variants[i].obs) # Q(first)}
+      tiesOnly == /\ UsesScore(e.sort)
+                  /\ \A i \in idsBad : e.variants[i].explain /\ SameRanking(first, e.variants[i].obs)
+      otherBad == {i \in DOMAIN e.variants : P(e.variants[i].obs) # P(first)} \cup (IF tiesOnly THEN {} ELSE idsBad)
       totalBad == {i \in DOMAIN e.variants : e.variants[i].obs.total # first.total}
       (* S20b: explain installs a score hook, which switches pruning off, so the    *)
       (* estimate of a pruned execution grows when explain is on                    *)
@@ -322,15 +327,22 @@ CheckSame20(e, l, scn) ==
               /\ \A i \in DOMAIN first.sbits : first.sbits[i] = 0
               /\ \A i \in scoreBad : e.variants[i].explain
               /\ \A i \in DOMAIN e.variants : ~e.variants[i].explain => i \notin scoreBad
+      (* S20d: with explain the score is recomputed through the score tree, which sums the    *)
+      (* term contributions in another order than the top-k loop: scores differ by a few ULP  *)
+      s20d == /\ \A i \in scoreBad : /\ e.variants[i].explain
+                                     /\ Len(e.variants[i].obs.sbits) = Len(first.sbits)
+                                     /\ \A k \in DOMAIN first.sbits : AbsI(first.sbits[k] - e.variants[i].obs.sbits[k]) <= 4
+              /\ \A i \in DOMAIN e.variants : ~e.variants[i].explain => i \notin scoreBad
   IN IF otherBad # {}
        THEN Tell("FAIL", e.prop, l, scn, e, "explain/profile changed hits, totals, cursor or aggregations", e.variants[CHOOSE i \in otherBad : TRUE].label)
      ELSE IF finalsBad # {}
        THEN Tell("FAIL", e.prop, l, scn, e, "an explanation's final score differs from its hit's score", "")
-     ELSE IF scoreBad # {} /\ ~s20a
+     ELSE IF scoreBad # {} /\ ~s20a /\ ~s20d
        THEN Tell("FAIL", e.prop, l, scn, e, "explain/profile changed scores", e.variants[CHOOSE i \in scoreBad : TRUE].label)
      ELSE IF totalBad # {} /\ ~s20b
        THEN Tell("FAIL", e.prop, l, scn, e, "explain/profile changed total_hits_estimate", e.variants[CHOOSE i \in totalBad : TRUE].label)
-     ELSE /\ (scoreBad # {}) => Tell("DEV", e.prop, l, scn, e, "explain turns scoring on for a sort plan without _score", "S20a")
+     ELSE /\ (scoreBad # {} /\ s20a) => Tell("DEV", e.prop, l, scn, e, "explain turns scoring on for a sort plan without _score", "S20a")
+          /\ ((scoreBad # {} /\ ~s20a) \/ idsBad # {}) => Tell("DEV", e.prop, l, scn, e, "explain changes scores by a few ULP (summation order); near-tied hits may change places", "S20d")
           /\ (totalBad # {}) => Tell("DEV", e.prop, l, scn, e, "explain switches pruning off, so the total of a pruned execution grows", "S20b")
 
 CheckSame(e, l, scn) == IF e.prop = "C09" THEN CheckSame09(e, l, scn) ELSE CheckSame20(e, l, scn)
